@@ -35,6 +35,8 @@ def run_shard(ctx):
         fails = [(s_, m) for s_, m in relaykinds.run_case(case) if s_.startswith('C01')]
         ctx.record(repr(case), len(case['rounds']) >= 1, labels=['relay-kinds', 'kind=' + case['kind']], case=case, failures=fails)
     hyp.drive(ctx, relaykinds.case_strategy, one, ctx.n(200, 4000), salt=11)
+    qmgen.drive_histories(ctx, OWN, qmgen.restart_race_history(), ctx.n(600, 10000), nontrivial, salt=8)
+    qmgen.drive_histories(ctx, OWN, qmgen.saturated_pool_history(), ctx.n(600, 10000), nontrivial, salt=9)
 
 
 def replay(case):
